@@ -217,10 +217,10 @@ func VerifTicksReset() {
 
 // Gauges published by the stream loop at every iteration: current values and
 // the maxima since the last reset.
-var verifGaugeCur, verifGaugeMax [3]int64
+var verifGaugeCur, verifGaugeMax [5]int64
 
-func verifGauge(strms, open, closedRing int) {
-	vals := [3]int64{int64(strms), int64(open), int64(closedRing)}
+func verifGauge(strms, open, closedRing int, recvWindow, sendWindow int64) {
+	vals := [5]int64{int64(strms), int64(open), int64(closedRing), recvWindow, sendWindow}
 	for i, v := range vals {
 		atomic.StoreInt64(&verifGaugeCur[i], v)
 		if v > atomic.LoadInt64(&verifGaugeMax[i]) {
@@ -230,8 +230,9 @@ func verifGauge(strms, open, closedRing int) {
 }
 
 // VerifGauges returns (stream table length, open stream slots, closed ring
-// length): current values and maxima since VerifTicksReset.
-func VerifGauges() (cur, max [3]int64) {
+// length, connection receive window, connection send window): current values
+// and maxima since VerifTicksReset.
+func VerifGauges() (cur, max [5]int64) {
 	for i := range cur {
 		cur[i] = atomic.LoadInt64(&verifGaugeCur[i])
 		max[i] = atomic.LoadInt64(&verifGaugeMax[i])
